@@ -185,6 +185,36 @@ func genC02(tier string, rng *RNG, w *CaseWriter) {
 			}
 		}
 	}
+	// (4) JWS: two spellings of the algorithm header. The signature library reads the exact member "alg", a
+	// case-insensitive JSON decoder may read the other one: the envelope is signed (validly) under the exact one
+	for _, kn := range []string{"rsa2048a", "rsa3072", "rsa4096", "ec256b"} {
+		keyAlg := numJose[keyAlgNum(Key(kn).Public())]
+		for _, exact := range []string{"PS256", "PS384", "PS512", "ES256", "ES384"} {
+			if exact == keyAlg {
+				continue
+			}
+			for _, variant := range []string{"Alg", "ALG", "aLg"} {
+				for _, order := range []int{0, 1} {
+					p := basePlanEnv(0, "notary.x509", false)
+					p.Chain, p.SignWith, p.LeafKey = chains[kn], Key(kn), kn
+					p.DeclAlg, p.SignAlg = exact, exact
+					if _, err := signRaw(exact, Key(kn), []byte("probe")); err != nil {
+						continue
+					}
+					if order == 0 {
+						p.jMut = append(p.jMut, jAdd(variant, jstr(keyAlg)))
+					} else {
+						p.jMut = append(p.jMut, func(s *jwsSpec) { s.Protected = append([]jMember{{variant, jstr(keyAlg)}}, s.Protected...) })
+					}
+					b, mt, err := p.encode()
+					if err != nil {
+						continue
+					}
+					emitEnvelopeWrapped(w, mt, b, []string{"key=" + kn, "exact-alg=" + exact, variant + "=" + keyAlg}, "(KEnv %s)")
+				}
+			}
+		}
+	}
 	_ = rng
 }
 
